@@ -210,6 +210,14 @@ pub fn url_from(r: &mut Rng, rules: &[String]) -> (String, String, String) {
     if r.pct(8) && !u.contains('?') {
         u.push_str(r.pick(&["?k=1&ad=2", "?foo_bar=x&k=", "?ad=1"]));
     }
+    // the part of the URL the rule is about may sit in the fragment (single-page applications route there);
+    // rules are matched against the whole URL
+    if r.pct(7) {
+        if let Some(i) = u.find("://").and_then(|i| u[i + 3..].find('/').map(|j| i + 3 + j)) {
+            let (head, path) = u.split_at(i);
+            u = format!("{}/app#{}", head, path);
+        }
+    }
     let src = if r.pct(10) {
         String::new()
     } else if let (Some(d), true) = (src_from_dom, r.pct(60)) {
@@ -237,7 +245,7 @@ pub fn partial_token_scenario(r: &mut Rng) -> (Vec<String>, String) {
     let (rule, url) = match r.below(4) {
         0 => (format!("{}||cdn.test*{}/zone/x", pre, t), format!("https://cdn.test/img/top{}/zone/x.gif", t)),
         1 => (format!("{}||cdn.test*{}/zone/x$important", pre.replace("@@", ""), t), format!("https://cdn.test/q{}/zone/x", t)),
-        2 => (format!("{}/zone/x/{}*gif|", pre, t), format!("https://cdn.test/zone/x/{}/anim.gif", t).replace(".gif", "gif")),
+        2 => (format!("{}/zone/x/*{}|", pre, t), format!("https://cdn.test/zone/x/my{}", t)),
         _ => (format!("{}||cdn.test^*{}/zone/", pre, t), format!("https://cdn.test/a/my{}/zone/1", t)),
     };
     let mut lines = vec![rule];
@@ -245,7 +253,7 @@ pub fn partial_token_scenario(r: &mut Rng) -> (Vec<String>, String) {
         lines.push("||cdn.test^".to_string());
     }
     for i in 0..6 {
-        lines.push(format!("||ballast{}.test/cdn/test/zone/x/gif/{}", i, i));
+        lines.push(format!("||ballast{}.test/cdn/test/zone/x/{}", i, i));
     }
     (lines, url)
 }
@@ -333,6 +341,10 @@ fn cluster_impl(r: &mut Rng, o: &ClusterOpts, kind: usize, same_mask: bool) -> V
                 opts.clear();
                 if r.pct(20) {
                     opts.push(r.pick(&["third-party", "domain=shop.test", "domain=cdn.test|shop.test"]).to_string());
+                }
+                // a repeated modifier is an error (one modifier per rule), whatever the spelling
+                if r.pct(8) {
+                    opts.push(r.pick(&["csp=img-src 'none'", "csp", "csp=a"]).to_string());
                 }
                 if exc && r.pct(25) {
                     opts.push("csp".to_string());
